@@ -182,6 +182,16 @@ def _run_shard(job):
     signal.signal(signal.SIGALRM, _on_alarm)
     lib.MODE = 'int' if '#int' in fam.name else 'float'
     lib.FORM = next((f for f in 'BCD' if '#form' + f in fam.name), 'A')
+    try:
+        lib.legal_prelude()
+    except Exception as ex:  # noqa
+        if not _raised_in_library(ex):
+            raise
+        v = Viol('%s|%s|legal-prelude-raised|%s' % (_PROP, fam.name.split('/')[0], type(ex).__name__), enc(('prelude',)), 'no exception',
+                 '%s: %s' % (type(ex).__name__, str(ex)[:200]), 'the prelude of legal operations on factory objects raised inside the library')
+        v.family = fam.name
+        viols[v.sig] = [v]
+        vcount[v.sig] += 1
     for scene in fam.scenes(shard):
         signal.setitimer(signal.ITIMER_REAL, fam.scene_timeout)
         try:
